@@ -21,6 +21,7 @@ TRACE = "SPECIFICATION %(spec)s\nCONSTANTS\n  XtDocumented = %(xt)s\n%(tail)s\nC
 # counts / seeds are digit strings: Nums are written by Digits(), BigNums / OpenNums name texts of CmdLineLattice.NumText
 # (inside / outside the documented range 1..2^32-1); the numeric vectors (LEN = "num") always use every text
 BIG = dict(GChars="{65, 66}", NChars="{120, 121}", Nums="{3}", BigNums='{"007", "2^31", "2^32-1"}', OpenNums='{"2^32"}', WithMalformed="TRUE")
+WORD_PAIRS_QUICK = 300
 SMALL = dict(GChars="{65}", NChars="{120}", Nums="{3}", BigNums="{}", OpenNums="{}", WithMalformed="TRUE")
 
 
@@ -51,13 +52,28 @@ def lone_xt(ln):
     return None
 
 
-def make_key_fn(ctx, probe_log, tcfg_open):
+def probe_line_of(tests):
+    return ["probe"] + [x for t in tests for x in (enc(t["g"]), enc(t["n"]), "1" if t["ign"] else "0")]
+
+
+def probe_log_of(ex, idx):
+    """The log line of the probe registry in force at line idx of an execution (rebuilt from the script)."""
+    for ln in reversed(ex[:idx]):
+        ln = [str(x) for x in ln]
+        if ln[0] == "probe":
+            unhex = lambda h: [] if h == "-" else list(bytes.fromhex(h))
+            return {"op": "probe", "tests": [{"g": unhex(ln[k]), "n": unhex(ln[k + 1]), "ign": ln[k + 2] == "1"} for k in range(1, len(ln) - 2, 3)]}
+    return None
+
+
+def make_key_fn(ctx, tcfg_open):
     def key_of(kind, ex, idx, observed):
         if idx >= len(ex):
             return kind + ":?"
         ln = [str(x) for x in ex[idx]]
         if ln[0] != "argv":
             return "%s:%s" % (kind, ln[0])
+        probe_log = probe_log_of(ex, idx)
         # The one divergence class that needs a design decision gets a class key - but only if it is the ONLY thing wrong
         # with the line: the same log line is accepted when the specification leaves a lone -xt/-xst selection open.
         which = lone_xt(ln) if kind == "reject" and observed and observed.get("acc") else None
@@ -140,6 +156,65 @@ def rnd_doc_vector(rng):
     return [t.encode("latin1") for t in v]
 
 
+def word(rng, letters, lo, hi):
+    return "".join(rng.choice(letters) for _ in range(rng.randint(lo, hi)))
+
+
+IDENT_CHARS = "ABCDEFGHIJKLMNOPQRSTUVWXYZabcdefghijklmnopqrstuvwxyz0123456789_"
+
+
+def rnd_registry(rng):
+    """A probe registry for the substring meaning of the filters: a few filter texts (words over one to three identifier letters, so that
+    a text often overlaps itself), and tests whose group / name is a random word or is built around a text: a partial occurrence of the
+    text directly followed by (or overlapping) a real one, the text itself, the text with one letter changed or missing.
+    -> (tests, group text pool, name text pool)"""
+    def side():
+        letters = rng.sample(IDENT_CHARS, rng.choice([1, 2, 2, 2, 3]))
+        texts = [word(rng, letters, 2, 6) for _ in range(4)]
+        def name():
+            r = rng.random()
+            q = rng.choice(texts)
+            if r < 0.3:
+                return word(rng, letters, 1, 8)
+            if r < 0.7:          # near miss: prefix of the text + the text
+                return word(rng, letters, 0, 2) + q[:rng.randrange(1, len(q))] + q + word(rng, letters, 0, 2)
+            if r < 0.8:
+                return q
+            if r < 0.9:          # the text with one letter missing: no occurrence unless by chance
+                k = rng.randrange(len(q))
+                return word(rng, letters, 0, 2) + q[:k] + q[k + 1:] + word(rng, letters, 0, 2) or q
+            return q + q[:rng.randrange(1, len(q))]
+        names = [name() for _ in range(rng.randint(4, 7))]
+        # filter texts: the texts, whole names (the strict forms then select something), pieces of names
+        pool = texts + rng.sample(names, 2) + [n[a:a + rng.randint(1, 4)] or n for n in rng.sample(names, 2) for a in [rng.randrange(len(n))]]
+        return names, pool
+    gnames, gpool = side()
+    nnames, npool = side()
+    tests = [{"g": g.encode(), "n": n.encode(), "ign": rng.random() < 0.15} for g in gnames for n in nnames if rng.random() < 0.8]
+    rng.shuffle(tests)
+    return tests or [{"g": gnames[0].encode(), "n": nnames[0].encode(), "ign": False}], gpool, npool
+
+
+def rnd_sel_vector(rng, gpool, npool):
+    """One to three filter options of any kind with texts of the pools, attached or separated, sometimes beside another option."""
+    parts = []
+    for _ in range(rng.choice([1, 1, 1, 2, 2, 3])):
+        r = rng.random()
+        if r < 0.4:
+            opt, val = rng.choice(["-g", "-sg", "-xg", "-xsg", "-g", "-xg"]), rng.choice(gpool)
+        elif r < 0.8:
+            opt, val = rng.choice(["-n", "-sn", "-xn", "-xsn", "-n", "-xn"]), rng.choice(npool)
+        elif r < 0.94:
+            opt, val = rng.choice(["-t", "-st", "-xt", "-xst", "-t"]), rng.choice(gpool) + "." + rng.choice(npool)
+        else:
+            parts.append([rng.choice(["TEST(", "IGNORE_TEST("]) + rng.choice(gpool) + ", " + rng.choice(npool) + ")"])
+            continue
+        parts.append([opt + val] if rng.random() < 0.5 else [opt, val])
+    if rng.random() < 0.3:
+        parts.insert(rng.randrange(len(parts) + 1), [rng.choice(["-ri", "-v", "-b", "-r2", "-c", "-r", "-s7", "-p"])])
+    return [t.encode("latin1") for part in parts for t in part]
+
+
 def rnd_wild_vector(rng):
     """Arbitrary bytes (no NUL), mutated documented tokens, truncated forms: only the safety clause applies."""
     v = []
@@ -171,8 +246,7 @@ def run(ctx):
     tcfg = ctx.write_cfg("Trace_CmdLine", TRACE % {"spec": "TSpec", "xt": XT, "tail": "INVARIANT TInv\nPOSTCONDITION Accepted"})
     tcfg_open = ctx.write_cfg("Trace_CmdLine_xtopen", TRACE % {"spec": "TSpec", "xt": "FALSE", "tail": "INVARIANT TInv\nPOSTCONDITION Accepted"})
     pcfg = ctx.write_cfg("Predict_CmdLine", TRACE % {"spec": "PSpec", "xt": XT, "tail": "INVARIANT Predict"})
-    state = {"probe_log": None}
-    key_of = lambda *a: make_key_fn(ctx, state["probe_log"], tcfg_open)(*a)
+    key_of = make_key_fn(ctx, tcfg_open)
     harness = lambda s, l: ctx.run([exe, s, l], timeout=60 if quick else 600)      # deadline: a hang of the real parser is a divergence
 
     if ctx.replay:
@@ -183,9 +257,9 @@ def run(ctx):
             cap, maxset = TR.probe_constants(ctx, xe)
             return TR.replay(ctx, xe, cap, maxset, True, strict=True)
         ex = [l.split("\t") for l in rp["script"]]
-        if rp.get("log") and rp["log"][0].get("op") == "probe":
-            state["probe_log"] = rp["log"][0]
-        conform(ctx, "replay", [ex], harness, "Trace_CmdLine", tcfg, pcfg, key_of, meta=rp.get("meta"))
+        # an execution of lone -xt / -xst vectors was validated with that selection left open (see go())
+        rcfg = tcfg_open if str((rp.get("meta") or {}).get("source", "")).endswith("_xt") else tcfg
+        conform(ctx, "replay", [ex], harness, "Trace_CmdLine", rcfg, pcfg, key_of, meta=rp.get("meta"))
         return ctx.finish("replay of one recorded execution", 1)
 
     # ---- leg 1: the parser machine on every vector of <= MaxLen tokens (index in bounds, progress, termination, = Meaning) + laws
@@ -199,24 +273,24 @@ def run(ctx):
     nexec = 0
     probe_line = None
 
-    def go(label, vectors, per=400, cfg=None):
+    def go(label, vectors=None, per=400, cfg=None, probe=None, groups=None):
         """Vectors whose only filter option is -xt/-xst are validated with that selection left open (everything else about them is
-        still bound); the documented meaning of the lone option is confronted separately on two vectors (see below), so that the
+        still bound, and so is what every reading of the option agrees on: XtAgreed); the documented meaning of the lone option is confronted separately on two vectors (see below), so that the
         one known divergence class cannot stop the validation of the rest (conform gives up after three rejections)."""
         nonlocal nexec
-        plain = [v for v in vectors if not lone_xt(vec_line(v))]
-        xt = [v for v in vectors if lone_xt(vec_line(v))]
-        for lab_, vs, c in ((label, plain, cfg or tcfg), (label + "_xt", xt, cfg or tcfg_open)):
-            if not vs:
+        groups = groups or [(probe or probe_line, vectors)]          # (probe registry line, vectors run on it)
+        for lab_, want_xt, c in ((label, False, cfg or tcfg), (label + "_xt", True, cfg or tcfg_open)):
+            execs = [[pr] + [vec_line(v) for v in part] for pr, vs in groups
+                     for part in chunk([v for v in vs if bool(lone_xt(vec_line(v))) == want_xt], per)]
+            if not execs:
                 continue
-            execs = [[probe_line] + [vec_line(v) for v in part] for part in chunk(vs, per)]
             for lab in conform_all(ctx, lab_, execs, harness, "Trace_CmdLine", c, pcfg, key_of, meta={"source": lab_}):
                 for e in log_of(ctx, lab):
                     if e.get("op") == "argv" and (not e.get("acc") or e.get("gf") or e.get("nf")):
                         nontrivial.add(json.dumps(e.get("tok")))
             nexec += len(execs)
-        ctx.evaluations += len(vectors)
-        return [[probe_line] + [vec_line(v) for v in vectors[:12]]]
+        ctx.evaluations += sum(len(vs) for _, vs in groups)
+        return [[groups[0][0]] + [vec_line(v) for v in groups[0][1][:12]]]
 
     # ---- leg 2: every vector of <= n tokens over the token alphabet, written by TLC
     plans = [(BIG, 0), (BIG, 1), (BIG, 2)] + ([] if quick else [(SMALL, 3)])
@@ -229,8 +303,7 @@ def run(ctx):
         vs = [[bytes(t) for t in json.loads(l)["tok"]] for l in open(outp) if l.strip()]
         if probe_line is None:
             tests = json.loads(open(prob).readline())["tests"]
-            state["probe_log"] = {"op": "probe", "tests": tests}
-            probe_line = ["probe"] + [x for t in tests for x in (enc(t["g"]), enc(t["n"]), "1" if t["ign"] else "0")]
+            probe_line = probe_line_of(tests)
         allvec += vs
         ctx.notes.setdefault("vectors_by_length", {})[str(n)] = len(vs)
     if len(allvec) < 1000:
@@ -250,6 +323,49 @@ def run(ctx):
     ctx.rng.shuffle(numvec)
     ex = go("numbers", numvec, per=100)
     ctx.sample({"source": "TLC numeric vectors (Gen_CmdLine, LEN=num)", "execution": [show(l[1:]) for l in ex[0][1:9]]})
+
+    # ---- leg 2w: the substring meaning of -g -n -t -xg -xn -xt (and the strict forms beside it) on WORDS: the registry holds one test for
+    #      every pair of a group word and a name word of <= 4 letters over two letters each (900 tests), the vectors are every filter option
+    #      with every word (pair of words) as text, attached and separated, and the TEST forms - so every way a text can lie in a name occurs
+    #      (start, middle, end, repeated, overlapping itself, behind a partial occurrence of itself)
+    wl = 4
+    gcfg = ctx.write_cfg("Gen_CmdLine_words", GEN % BIG)
+    outp = os.path.join(ctx.work, "vecwords.ndjson")
+    prob = os.path.join(ctx.work, "probe_words.ndjson")
+    ctx.tlc("Gen_CmdLine", gcfg, workers=1, env={"OUT": outp, "PROBE": prob, "LEN": "words", "WLEN": str(wl), "FLEN": str(wl)}, timeout=600, heap="4g", count=False)
+    wtests = json.loads(open(prob).readline())["tests"]
+    wvec = [[bytes(t) for t in json.loads(l)["tok"]] for l in open(outp) if l.strip()]
+    one = [v for v in wvec if b"." not in b"".join(v) and b"(" not in b"".join(v)]      # -g / -n family: one word
+    two = [v for v in wvec if not (b"." not in b"".join(v) and b"(" not in b"".join(v))]  # -t family and TEST forms: a pair of words
+    if len(wtests) < 400 or len(one) < 400 or len(two) < 4000:
+        raise Infra("word leg: %d tests, %d + %d vectors generated" % (len(wtests), len(one), len(two)))
+    ctx.rng.shuffle(one)
+    ctx.rng.shuffle(two)
+    wprobe = probe_line_of(wtests)
+    if quick:
+        # quick tier: a one-word vector runs on the tests whose other half is a single letter (every group word x 2 names for the
+        # -g family, 2 groups x every name word for the -n family); the pairs repeat what the single words cover exhaustively:
+        # a seeded sample of them on the whole registry
+        two = two[:WORD_PAIRS_QUICK]
+        gside = probe_line_of([t for t in wtests if len(t["n"]) == 1])
+        nside = probe_line_of([t for t in wtests if len(t["g"]) == 1])
+        groups = [(gside, [v for v in one if v[0].startswith((b"-g", b"-sg", b"-xg", b"-xsg"))]),
+                  (nside, [v for v in one if not v[0].startswith((b"-g", b"-sg", b"-xg", b"-xsg"))]), (wprobe, two)]
+    else:
+        groups = [(wprobe, one + two)]
+    ctx.notes["word_leg"] = {"tests": len(wtests), "one_word_vectors": len(one), "two_word_vectors": len(two), "letters_per_word": wl}
+    ex = go("words", groups=groups, per=150)
+    ctx.sample({"source": "TLC word vectors on the word registry (Gen_CmdLine, LEN=words)", "execution": [show(l[1:]) for l in ex[0][1:9]]})
+    # ---- leg 3w: seeded random registries and filter texts: words over a few identifier letters, test names built around the texts
+    #      (near misses: a partial occurrence directly followed by, or overlapping, a real one), 1-3 filter options per vector
+    nsel, persel = (40, 50) if quick else (600, 80)
+    groups = []
+    for _ in range(nsel):
+        tests, gpool, npool = rnd_registry(ctx.rng)
+        groups.append((probe_line_of(tests), [rnd_sel_vector(ctx.rng, gpool, npool) for _ in range(persel)]))
+    ex = go("random_selection", groups=groups, per=persel)
+    ctx.sample({"source": "seeded random registry + filter vectors", "registry": [show(ex[0][0][k:k + 2]) for k in range(1, min(len(ex[0][0]), 25), 3)],
+                "execution": [show(l[1:]) for l in ex[0][1:9]]})
 
     # ---- leg 3: seeded random vectors: documented language with arbitrary identifier-like values; arbitrary bytes (safety only)
     ndoc, nwild = (3000, 3000) if quick else (50000, 50000)
@@ -282,7 +398,9 @@ def run(ctx):
     ctx.notes["order_programs"] = TR.order_leg(ctx, nontrivial)
     return ctx.finish(
         rule="executions = chunks of <= 400 argument vectors, each parsed by the real CommandLineArguments (getters logged) and run through the real "
-             "CommandLineTestRunner on a 10-test probe registry (ASan+UBSan build, tokens in exact-size heap blocks); vectors = every vector of <= 2 "
+             "CommandLineTestRunner on a probe registry (10 tests; the word registry: one test per pair of a group word and a name word of <= 4 letters "
+             "over two letters; seeded random registries built around the filter texts) (ASan+UBSan build, tokens in exact-size heap blocks); "
+             "vectors = every filter option with every word / pair of words as text on the word registry (pairs: a seeded sample in the quick tier) + every vector of <= 2 "
              "tokens over the token alphabet written by TLC + the numeric vectors (-r / -s with every count / seed text, attached and separated) (<= 3 tokens over the reduced alphabet in the thorough tier) + seeded random documented "
              "vectors + seeded random byte vectors; meaning of each vector computed by TLC (Trace_CmdLine); distinct non-trivial = distinct vectors "
              "that were rejected or produced filters",
@@ -292,7 +410,8 @@ def run(ctx):
                      "repeat counts and shuffle seeds are decimal digit strings compared as digit sequences (leading zeros ignored); documented range 1..2^32-1 "
                      "(the unsigned values the runner itself derives from the clock and reports); 2^32 and more, -r0, a separated zero are left open; "
                      "an attached zero seed (-s0) must be rejected: the help text says the seed 'must be greater than 0' - the only value it declares invalid",
-                     "selection follows C02's rule per filter list; a lone -xt/-xst is read as the help text states it (exclude tests whose group AND name match)",
+                     "selection follows C02's rule per filter list; a lone -xt/-xst is read as the help text states it (exclude tests whose group AND name match); "
+                     "where that reading is left open (vectors validated beside the known finding) the tests of which both halves or neither half match are still bound",
                      "memory safety is observed by ASan/UBSan on the executed vectors; plugin arguments (-p<x>) only as 'no plugin accepts them'",
                      "time-based shuffle seed: any seed > 0 is accepted; order of execution is C02's subject (only run counts are compared)",
                      "the probe registry is not run for repeat counts above 100 (the configuration is still compared exactly)"],
